@@ -114,7 +114,9 @@ def drop_diagonal_before_measurement(
 
         for op in moment:
             # If this is a measurement, mark these qubits as measured
-            if protocols.is_measurement(op):
+            # (only a computational-basis measurement gate: an operation that merely contains a
+            # measurement, e.g. a sub-circuit, may act on its qubits before measuring them)
+            if isinstance(op.gate, ops.MeasurementGate):
                 measured_qubits.update(op.qubits)
                 new_ops.append(op)
             # If this is a diagonal gate and ALL of its qubits will be measured, remove it
